@@ -11,7 +11,7 @@
    Every theorem is for EVERY stream, EVERY chunking ds into non-empty chunks (any number, any sizes, also smaller than
    q / the block size), plain and annotated headers h, 1-D and 2-D; sample values are an abstract type, the filter
    recurrence [filt], the RMS [agg], the difference [sub], the threshold [thr]/[ge] are abstract functions. *)
-From PV Require Import Stages.Model Stages.Spec Stages.ProofsC Stages.ProofsD Stages.ProofsE.
+From PV Require Import Stages.Model Stages.Spec Stages.ProofsC Stages.ProofsD Stages.ProofsE Stages.ProofsE2.
 
 (* ---------------- blocked: consecutive blocks of exactly bs samples ---------------- *)
 Theorem C12_blocked_values : forall (A : Type) bs h s (ds : list (list A)), 1 <= bs -> nonempty_chunks ds ->
@@ -163,6 +163,91 @@ Theorem C12_decimate_contiguous_any : forall (A F : Type) (filt : F -> A -> F * 
   emits_contiguous (run (decimate_step_e true filt zf0 q) None (mkstream h s ds)) (h_scale q h) (h_s0 h s).
 Proof. exact @decimate_contiguous_any. Qed.
 Print Assumptions C12_decimate_contiguous_any.
+
+(* ---------------- every stage on EVERY chunking, zero-length chunks included (no hypothesis on the chunk lengths;
+   event_rate: Events chunks may span zero samples).  Same step functions as above: the code treats an empty chunk like
+   any other one (it may emit an empty block: discard, derivative, transform, auto_th, 2-D downsample). ---------------- *)
+Theorem C12_blocked_values_any : forall (A : Type) bs h s (ds : list (list A)), 1 <= bs ->
+  exists st outs, run (blocked_step bs) blocked_init (mkstream h s ds) = Some (st, outs) /\
+    concat (map dat outs) = take_mult bs (concat ds) /\ Forall (fun o => zlen (dat o) = bs) outs.
+Proof. exact @blocked_values_any. Qed.
+Print Assumptions C12_blocked_values_any.
+Theorem C12_blocked_contiguous_any : forall (A : Type) bs h s (ds : list (list A)), 1 <= bs ->
+  emits_contiguous (run (blocked_step bs) blocked_init (mkstream h s ds)) h s.
+Proof. exact @blocked_contiguous_any. Qed.
+Print Assumptions C12_blocked_contiguous_any.
+Theorem C12_discard_values_any : forall (A : Type) d h s (ds : list (list A)), 0 <= d ->
+  emits_values (run discard_step d (mkstream h s ds)) (discarded d (concat ds)).
+Proof. exact @discard_values_any. Qed.
+Print Assumptions C12_discard_values_any.
+Theorem C12_discard_contiguous_any : forall (A : Type) d h s (ds : list (list A)), 0 <= d ->
+  emits_contiguous (run discard_step d (mkstream h s ds)) h (s + d).
+Proof. exact @discard_contiguous_any. Qed.
+Print Assumptions C12_discard_contiguous_any.
+Theorem C12_downsample_values_any : forall (A : Type) q h s (ds : list (list A)), 1 <= q ->
+  emits_values (run (downsample_step true q) ds_init (mkstream h s ds)) (downsampled q (concat ds)).
+Proof. exact @downsample_values_any. Qed.
+Print Assumptions C12_downsample_values_any.
+Theorem C12_downsample_contiguous_any : forall (A : Type) q h s (ds : list (list A)), 1 <= q ->
+  emits_contiguous (run (downsample_step true q) ds_init (mkstream h s ds)) (h_scale q h) (h_s0 h s).
+Proof. exact @downsample_contiguous_any. Qed.
+Print Assumptions C12_downsample_contiguous_any.
+Theorem C12_rms_values_any : forall (A O : Type) (agg : list A -> O) n h s (ds : list (list A)), 1 <= n ->
+  emits_values (run (rms_step true agg n) rms_init (mkstream h s ds)) (rms_blocks agg n (concat ds)).
+Proof. exact @rms_values_any. Qed.
+Print Assumptions C12_rms_values_any.
+Theorem C12_rms_contiguous_any : forall (A O : Type) (agg : list A -> O) n h s (ds : list (list A)), 1 <= n -> (n | s) ->
+  emits_contiguous (run (rms_step true agg n) rms_init (mkstream h s ds)) (h_scale n h) (s / n).
+Proof. exact @rms_contiguous_any. Qed.
+Print Assumptions C12_rms_contiguous_any.
+Theorem C12_derivative_values_any : forall (A : Type) (sub : A -> A -> A) init h s (ds : list (list A)), h_an h <> None ->
+  emits_values (run (derivative_step sub init) None (mkstream h s ds)) (derived sub init (concat ds)).
+Proof. exact @derivative_values_any. Qed.
+Print Assumptions C12_derivative_values_any.
+Theorem C12_derivative_contiguous_any : forall (A : Type) (sub : A -> A -> A) init h s (ds : list (list A)), h_an h <> None ->
+  emits_contiguous (run (derivative_step sub init) None (mkstream h s ds)) h s.
+Proof. exact @derivative_contiguous_any. Qed.
+Print Assumptions C12_derivative_contiguous_any.
+Theorem C12_transform_values_any : forall (A O : Type) (g : A -> O) h s (ds : list (list A)),
+  emits_values (run (map_step g) tt (mkstream h s ds)) (map g (concat ds)).
+Proof. exact @map_values_any. Qed.
+Print Assumptions C12_transform_values_any.
+Theorem C12_transform_contiguous_any : forall (A O : Type) (g : A -> O) h s (ds : list (list A)),
+  emits_contiguous (run (map_step g) tt (mkstream h s ds)) h s.
+Proof. exact @map_contiguous_any. Qed.
+Print Assumptions C12_transform_contiguous_any.
+Theorem C12_mc_reference_values_any : forall (Col : Type) (g : Col -> Col) h s (ds : list (list Col)),
+  emits_values (run (map_step g) tt (mkstream h s ds)) (map g (concat ds)).
+Proof. exact (fun Col => @map_values_any Col Col). Qed.
+Print Assumptions C12_mc_reference_values_any.
+Theorem C12_mc_reference_contiguous_any : forall (Col : Type) (g : Col -> Col) h s (ds : list (list Col)),
+  emits_contiguous (run (map_step g) tt (mkstream h s ds)) h s.
+Proof. exact (fun Col => @map_contiguous_any Col Col). Qed.
+Print Assumptions C12_mc_reference_contiguous_any.
+Theorem C12_auto_th_values_any : forall (A T O : Type) (thr : list A -> T) (ge : T -> A -> O) Bn h s (ds : list (list A)), 0 <= Bn ->
+  emits_values (run (autoth_step thr ge Bn) (AthAcc None) (mkstream h s ds)) (thresholded thr ge Bn (concat ds)).
+Proof. exact @autoth_values_any. Qed.
+Print Assumptions C12_auto_th_values_any.
+Theorem C12_auto_th_contiguous_any : forall (A T O : Type) (thr : list A -> T) (ge : T -> A -> O) Bn h s (ds : list (list A)), 0 <= Bn ->
+  emits_contiguous (run (autoth_step thr ge Bn) (AthAcc None) (mkstream h s ds)) h s.
+Proof. exact @autoth_contiguous_any. Qed.
+Print Assumptions C12_auto_th_contiguous_any.
+Theorem C12_event_rate_values_any : forall bsz stp lo (cs : list events),
+  0 <= bsz -> 1 <= stp -> cs <> [] -> ev_stream_any lo cs ->
+  exists st outs, run (er_step true bsz stp) None cs = Some (st, outs) /\
+    concat (map r_counts outs) = event_rates bsz stp (ev_all cs) lo (ev_end lo cs).
+Proof. exact event_rate_values_any. Qed.
+Print Assumptions C12_event_rate_values_any.
+Theorem C12_event_rate_contiguous_any : forall bsz stp lo (cs : list events),
+  0 <= bsz -> 1 <= stp -> cs <> [] -> ev_stream_any lo cs ->
+  exists st outs, run (er_step true bsz stp) None cs = Some (st, outs) /\ r_contiguous (2 * lo + bsz) stp outs.
+Proof. exact event_rate_contiguous_any. Qed.
+Print Assumptions C12_event_rate_contiguous_any.
+Example C12_ex_empty_chunks :
+  outs_of (run (blocked_step 2) blocked_init (mkstream (Hdr false (Some (1, None, 7))) (-3) [[]; [0]; []; []; [1; 2]; []]))
+  = Some [Blk [0; 1] false (Some (An (-3) 1 None 7))] /\
+  ev_stream_any 0 [Ev [] 0 0; Ev [1; 3] 0 5; Ev [] 5 5; Ev [6] 5 9].
+Proof. split; [vm_compute; reflexivity|]. cbn. repeat split; try lia; repeat constructor; lia. Qed.
 
 (* ---------------- what contiguity buys (concat model of pipeline.concat) ---------------- *)
 Theorem C12_contiguous_concat : forall (A : Type) h s (outs : list (blk A)), contiguous h s outs -> outs <> [] ->
